@@ -131,6 +131,16 @@ def r_busy_bind(ctx):
                 spec = _param_zero(run, And(eq(a, add(start, S("delay_in"))), eq(b, sub(end, S("early_out")))))
                 what = "static: task span shifted inwards by delay_in / early_out"
             em = And(*[_param_zero(run, e.term) for e in own if not e.loops and not e.guards])
+            # an unscheduled optional task sits at one negative point n; with a delay the worker's interval becomes
+            # (n + delay_in, n - early_out): it can be non-negative (the reporters and the indicators then count the worker as
+            # busy with a task that is not scheduled) and it has negative length.  The binding is unconditional today.
+            shifted = [k for k, v in run.decisions if v is True and (k.startswith("delay_in >") or k.startswith("early_out >"))]
+            if shifted and dec.get("bool(dynamic)") is not True and not any("_scheduled" in show(e.term) for e in own):
+                ctx.violation("R-BUSY-BIND", where, "busy interval shifted by delay_in / early_out also when the task is not scheduled",
+                              f"on [{cfgs[:90]}] the worker's interval is bound to start + delay_in / end - early_out with no look at the "
+                              f"task's scheduled flag: for an unscheduled optional task parked at -n it is (-n + delay_in, -n - early_out) - "
+                              f"with delay_in=2 the task parked at -1 is reported as assigned to the worker, and utilisation / cost count "
+                              f"an interval of negative length", location)
             ok, wit, method = decide_equiv(ctx, em, spec)
             if ok:
                 ctx.ok("R-BUSY-BIND", f"{where} [{cfgs}]", sample={"emitted": show(norm(em))[:300], "what": what, "decided_by": method})
@@ -333,6 +343,31 @@ def r_neg_point(ctx):
             ctx.violation("R-NEG-POINT", "SchedulingProblem.get_unique_negative_integer", "strictly decreasing, returned after the decrement",
                           f"new counter {show(new) if isinstance(new, tuple) else new}, returned {show(r.retval) if isinstance(r.retval, tuple) else r.retval}",
                           first_line(proj, "SchedulingProblem"))
+    # one generator for all parked points: an unscheduled optional task and an unselected alternative worker are both moved to "a
+    # negative point of their own"; the strict sorters (ResourceNonDelay, ResourceTasksDistance, IndicatorResourceIdle) and the
+    # pairwise non-overlap rest on all those points being distinct, which two independent generators cannot promise
+    runs = runs_of(ctx, Entry("init", cls="FixedDurationTask", opaque=OPAQUE))
+    fails_closed(ctx, "R-NEG-POINT", runs)
+    own_generator = False
+    for r in runs:
+        if r.rejected or dict(r.decisions).get("bool(self.optional)") is not True:
+            continue
+        st_var = r.heap.get((SELF, "_start"))
+        for e in r.emissions:
+            for s_ in subterms(e.term):
+                if is_app(s_, "==") and len(s_) == 4 and st_var in (s_[2], s_[3]):
+                    other = s_[3] if s_[2] == st_var else s_[2]
+                    if "get_unique_negative_integer" not in show(other) and "_unique_integer" not in show(other) \
+                            and (is_app(other, "neg") or "_task_number" in show(other) or "len(" in show(other)):
+                        own_generator = show(norm(other))[:80]
+    if own_generator:
+        ctx.violation("R-NEG-POINT", "Task.set_assertions", "parked points come from two generators",
+                      f"an unscheduled optional task is parked at {own_generator} (-1, -2, ... by declaration rank) while an unselected "
+                      f"alternative worker is parked at get_unique_negative_integer() (-2, -3, ...): the second optional task and the first "
+                      f"unselected worker both sit at -2, and a strict sorter over that worker's busy intervals rejects a valid schedule",
+                      "processscheduler/task.py")
+    else:
+        ctx.ok("R-NEG-POINT", "parked points of tasks and of unselected workers come from one generator")
     # task number: number of tasks after insertion
     runs = runs_of(ctx, Entry("method", cls="SchedulingProblem", name="add_task"))
     fails_closed(ctx, "R-NEG-POINT", runs)
@@ -461,6 +496,42 @@ def r_work_amount(ctx):
                           f"{[show(x) for x in extra]})", "processscheduler/solver.py")
 
 
+def r_dup_required(ctx):
+    """one worker serves one task through one requirement: the busy dict of a worker is keyed by task, the work amount sums over
+    `_required_resources`, and the z3 names of the busy interval carry (worker, task) only - a worker reached twice by the same
+    task (two selections sharing it, or a direct requirement plus a selection) overwrites its own interval and is counted twice.
+    The duplicate test of add_required_resource must therefore look at what is stored (the workers), on every branch."""
+    where = "Task.add_required_resource"
+    runs = runs_of(ctx, Entry("method", cls="Task", name="add_required_resource", opaque=OPAQUE))
+    fails_closed(ctx, "R-DUP-REQUIRED", runs)
+    n = 0
+    bad = {}
+    for run in runs:
+        if run.rejected:
+            continue
+        dec = dict(run.decisions)
+        kind = "worker" if dec.get("isinstance(resource, Worker)") is True else "selection" if dec.get("isinstance(resource, SelectWorkers)") is True \
+            else "cumulative worker" if dec.get("isinstance(resource, CumulativeWorker)") is True else None
+        if kind is None:
+            continue
+        n += 1
+        stored = [ev.data["args"][0] for ev in run.events_of("mcall") if ev.data["name"] == "append"
+                  and ev.data["recv"] == A(SELF, "_required_resources") and ev.data["args"]]
+        tested = [g_[2] for ev in run.events_of("raise") for g_ in ev.guards
+                  if is_app(g_, "in") and len(g_) == 4 and g_[3] == A(SELF, "_required_resources")]
+        if stored and all(any(norm(s_) == norm(t_) for t_ in tested) for s_ in stored):
+            ctx.ok("R-DUP-REQUIRED", f"{where} [{kind}]: the duplicate test looks at what is stored")
+        else:
+            bad.setdefault(kind, ([show(s_)[:40] for s_ in stored], [show(t_)[:40] for t_ in tested], describe_config(run)[:80]))
+    for kind, (st_, te_, cfgs) in sorted(bad.items()):
+        ctx.violation("R-DUP-REQUIRED", where, f"duplicate test misses the workers of a {kind}",
+                      f"for a {kind} the method stores {st_} in _required_resources but tests {te_} for membership: the same worker can be "
+                      f"required twice by one task (two selections sharing a worker, or a direct requirement plus a selection) - its busy "
+                      f"interval for the task is overwritten, the two requirements share one pair of z3 constants, and its work is counted "
+                      f"twice (work_amount 4 met with 2 units of work)", "processscheduler/task.py")
+    ctx.floor("R-DUP-REQUIRED", "accepting paths by resource kind", n, 3)
+
+
 def r_reported_assignment(ctx):
     """'every scheduled task occupies each required worker for ...' is read by the user from the returned schedule: the
     assignment a resource reports is the model value of the stored busy pair, listed exactly when the task lists the resource
@@ -483,7 +554,7 @@ def r_resources_assert_nothing(ctx):
     indicators.r_own_exact(ctx, bases=("Resource",))
 
 
-RULES = [r_resources_assert_nothing, r_pairwise, r_busy_bind, r_select_workers, r_neg_point, r_cumul, r_work_amount,
+RULES = [r_resources_assert_nothing, r_dup_required, r_pairwise, r_busy_bind, r_select_workers, r_neg_point, r_cumul, r_work_amount,
          lambda ctx: task_rules.r_drain(ctx, only=("workers", "tasks")), r_reported_assignment, r_declared_reaches_solver,
          # `busy >= 0` is the reporters' (and R-VIEW-SYMMETRY's) test for 'assigned': every task class asserts start >= 0 (R-TASK-OBLIG)
          lambda ctx: task_rules.r_task_oblig(ctx),
